@@ -26,6 +26,8 @@ THEOREMS = [
     "Optyx.Props.C18.integrality_guard_frame",
     "Optyx.Props.C18.binary_bounds",
     "Optyx.Props.C18.views_share_elements",
+    "Optyx.Props.Dispatch.solve_autoSelect_eq_generated",
+    "Optyx.Props.Dispatch.solve_route_eq_generated",
 ]
 ASSUMPTIONS = [
     "bounds / domain attributes are not reassigned after construction (binary_bounds is about construction routes)",
@@ -109,7 +111,7 @@ def guard_cases(rep, rng, recs, thorough):
     for ri, r in enumerate(recs):
         dom = hd.base_of(r)[-2] if hd.base_of(r)[0] == "mat" else hd.base_of(r)[-1]
         # every route × every method × strict on the cell cover; random compositions get a sample
-        cover = ri < 420 or thorough
+        cover = ri < 420 or (thorough and ri % 4 == 0)
         for method in METHODS:
             for strict in (False, True):
                 if not cover and rng.random() > 0.12:
@@ -420,7 +422,7 @@ def sole_view_cases(rep, rng, recs, thorough, with_model=True, every=False):
             for mi, method in enumerate(METHODS):
                 for strict in (True, False):
                     i += 1
-                    if not (thorough or every) and (ki + mi + i // 2) % 6:
+                    if not every and (ki + mi + i // 2) % (2 if thorough else 6):
                         continue
                     try:
                         P, h = sole_problem(r, kind)
@@ -593,7 +595,7 @@ def run(ctx) -> core.Report:
         if thorough or per[key] <= (3 if dom != "continuous" else 1):
             guard_recs.append(r)
     guard_cases(rep, rng, guard_recs, thorough)
-    sole_view_cases(rep, rng, pick_views(recs, 3 if thorough else 1), thorough)
+    sole_view_cases(rep, rng, pick_views(recs, 2 if thorough else 1), thorough)
     sequence_cases(rep, rng, guard_recs, thorough)
     lifetime_cases(rep, rng, thorough)
     rep.exhaustive = True
